@@ -69,6 +69,15 @@ def row_text(row):
 def refmt_row(rng, row):
     """same text, different formatting (the 'differs only in formatting' pair)"""
     text = row_text(row)
+    if row["t"] == "fmt" and len(row["runs"]) >= 2 and len(text) >= 2 and rng.random() < 0.4:
+        # the same attribute sets in the same order, only the cut points move (a highlight sliding along the line)
+        atts = [a for _t, a in row["runs"]]
+        for _ in range(8):
+            cuts = sorted(rng.randrange(0, len(text) + 1) for _ in range(len(atts) - 1))
+            bounds = [0] + cuts + [len(text)]
+            new = {"t": "fmt", "runs": [[text[bounds[i]:bounds[i + 1]], dict(atts[i])] for i in range(len(atts))]}
+            if all(r[0] for r in new["runs"]) and row_cells(new) != row_cells(row):
+                return new
     for _ in range(8):
         if not text:
             break
